@@ -79,6 +79,8 @@ pub fn attrs_strategy() -> BoxedStrategy<String> {
     let attr = pick(vec![
         " id=x", " class=\"a b\"", " class='c'", " data-x=\"a>b\"", " data-y='<p>'", " hidden", " title=\"x &amp; y\"", " CLASS=UP", "  data-z = \"spaced\"", " data-e=\"\"", " href=\"/a?b=1&c=2\"", " data-q=\"it's\"",
         " data-div=\"<div>\"", " data-end=\"</body>\"", "\n  lang=\"fr\"", " data-u=\"é日本\"",
+        // unquoted values ending in a slash: the slash belongs to the value, it does not close the tag
+        " href=/docs/", " data-s=a/",
     ]);
     prop::collection::vec(attr, 0..3).prop_map(|v| v.concat()).boxed()
 }
@@ -102,7 +104,11 @@ pub fn make_elem(tag: &str, st: &ElemStyle, children: Vec<Node>, hit: Option<usi
     if form != 0 {
         // an unquoted value directly before "/>" would swallow the slash: quote the hit there
         let hit_attr = if hit_attr == " class=sel-hit" { " class=\"sel-hit\"" } else { hit_attr };
-        let start = format!("<{name}{}{hit_attr}{}/>", st.attrs, if form == 2 { " " } else { "" });
+        // likewise after any unquoted value: `<x id=a/>` is a start tag whose id is "a/"; write `<x id=a />`
+        let tail = format!("{}{hit_attr}", st.attrs);
+        let last = tail.trim_end().rsplit(char::is_whitespace).next().unwrap_or("");
+        let unquoted_last = last.contains('=') && !last.ends_with('"') && !last.ends_with('\'');
+        let start = format!("<{name}{tail}{}/>", if form == 2 || unquoted_last { " " } else { "" });
         return Elem { tag: tag.to_string(), start, end: String::new(), children: Vec::new(), hit: hit.is_some() };
     }
     let start = format!("<{name}{hit_attr}{}{}>", st.attrs, if st.space_before_gt { " " } else { "" });
@@ -131,7 +137,9 @@ pub fn decoy_strategy(decoy_tags: Vec<String>) -> BoxedStrategy<Node> {
     let t2 = tags.clone();
     prop_oneof![
         // raw-text elements and comments WITHOUT markup inside (cuts inside them are outside the D7 zones)
-        2 => pick(vec![("<title>", "A plain title", "</title>"), ("<textarea>", "some text \u{e9}", "</textarea>"), ("<style>", "p > a { color: red }", "</style>"), ("<script>", "var a = 1 > 0;", "</script>"), ("<TITLE>", "T", "</TITLE>")]).prop_map(|(s, c, e)| Node::Raw(s.to_string(), c.to_string(), e.to_string())),
+        2 => pick(vec![("<title>", "A plain title", "</title>"), ("<textarea>", "some text \u{e9}", "</textarea>"), ("<style>", "p > a { color: red }", "</style>"), ("<script>", "var a = 1 > 0;", "</script>"), ("<TITLE>", "T", "</TITLE>"),
+            // a '<' directly before the end tag, '<<' (still no markup inside)
+            ("<title>", "a <", "</title>"), ("<style>", "a<<", "</style>"), ("<textarea>", "1 < 2 <", "</textarea>"), ("<title>", "<", "</title>"), ("<script>", "if (a<", "</script>")]).prop_map(|(s, c, e)| Node::Raw(s.to_string(), c.to_string(), e.to_string())),
         1 => pick(vec!["<!-- plain comment -->", "<!--x-->"]).prop_map(|s| Node::Comment(s.to_string())),
         3 => (pick(tags.clone()), pick(vec!["<!--", "<!-- ", "<!--\n"]), pick(vec!["-->", " -->", "--!>"])).prop_map(|(t, o, c)| Node::Comment(format!("{o}<{t}>x</{t}>{c}"))),
         1 => pick(vec!["<!---->", "<!-- a -- b -->", "<!-- > -->", "<!--x->-->", "<?xml x?>", "<!DOCTYPE html>", "<![CDATA[ <div> ]]>", "</>", "<!>"]).prop_map(|s| Node::Comment(s.to_string())),
